@@ -921,6 +921,13 @@ func (fr *Frame) unop(x *ssa.UnOp, st *State, reach string) {
 	case token.MUL: // load
 		pt := x.X.Type().Underlying().(*types.Pointer)
 		if g, ok := x.X.(*ssa.Global); ok {
+			if full, ok := vc.DB.FuncAlias[shortPkg(g.Pkg.Pkg.Path())+"."+g.Name()]; ok && fr.fn.Name() != "init" {
+				if fn := vc.P.lookupFull(full); fn != nil {
+					fr.clos[x] = &closureVal{fn: fn}
+					fr.vals[x] = vc.funcConst(full)
+					return
+				}
+			}
 			if _, z := vc.DB.ZeroGlobals[shortPkg(g.Pkg.Pkg.Path())+"."+g.Name()]; z {
 				fr.vals[x] = zeroOf(vc.sortOf(pt.Elem()))
 				return
